@@ -354,7 +354,7 @@ func NewWorld(cfg Config, verbose bool) (*World, error) {
 			PacketConn:            s,
 			RelayAddressGenerator: w.gen,
 			PermissionHandler: func(clientAddr net.Addr, peerIP net.IP) bool {
-				return !w.deniedAt(time.Now(), w.clientIndex(clientAddr), peerIP)
+				return !w.deniedCommon(time.Now(), w.clientIndex(clientAddr), peerIP)
 			},
 		}},
 		EventHandler: turn.EventHandler{
@@ -412,7 +412,10 @@ func NewWorld(cfg Config, verbose bool) (*World, error) {
 		sc.ListenerConfigs = []turn.ListenerConfig{{
 			Listener:              l,
 			RelayAddressGenerator: w.gen,
-			PermissionHandler:     sc.PacketConnConfigs[0].PermissionHandler,
+			PermissionHandler: func(clientAddr net.Addr, peerIP net.IP) bool {
+				// this listener's own policy on top of the common one
+				return !w.deniedOnStream(peerIP) && !w.deniedCommon(time.Now(), w.clientIndex(clientAddr), peerIP)
+			},
 		}}
 	}
 	srv, err := turn.NewServer(sc)
@@ -464,10 +467,21 @@ func (w *World) libAlloc(c *Client) *allocation.Allocation {
 			return nil
 		}
 
-		return w.mgrs[1].GetAllocation(&allocation.FiveTuple{SrcAddr: c.Addr, DstAddr: w.tcpLis.Addr(), Protocol: allocation.UDP})
+		ft := &allocation.FiveTuple{SrcAddr: c.Addr, DstAddr: w.tcpLis.Addr(), Protocol: allocation.UDP}
+		if a := w.mgrs[1].GetAllocation(ft); a != nil {
+			return a
+		}
+
+		// (which listener's manager holds it is the C04 stages' question; the state oracles
+		// follow the allocation wherever it is)
+		return w.mgrs[0].GetAllocation(ft)
+	}
+	ft := &allocation.FiveTuple{SrcAddr: c.Addr, DstAddr: w.srvSock.LocalAddr(), Protocol: allocation.UDP}
+	if a := w.mgrs[0].GetAllocation(ft); a != nil || len(w.mgrs) < 2 {
+		return a
 	}
 
-	return w.mgrs[0].GetAllocation(&allocation.FiveTuple{SrcAddr: c.Addr, DstAddr: w.srvSock.LocalAddr(), Protocol: allocation.UDP})
+	return w.mgrs[1].GetAllocation(ft)
 }
 
 // send delivers raw to the server over the client's transport.
@@ -565,9 +579,29 @@ func (w *World) callbacksActive() int {
 // deniedAt is the operator's policy at instant `at`: with DenyAfterS the deny list only applies
 // from that many seconds after the world's start (a ban introduced while permissions exist).
 func (w *World) deniedAt(at time.Time, client int, ip net.IP) bool {
+	if client >= 0 && client < len(w.clients) && w.clients[client].Stream && w.deniedOnStream(ip) {
+		return true
+	}
+
+	return w.deniedCommon(at, client, ip)
+}
+
+// deniedCommon is the policy both listeners' handlers share.
+func (w *World) deniedCommon(at time.Time, client int, ip net.IP) bool {
 	if w.cfg.DenyAfterS > 0 && at.Before(w.t0.Add(time.Duration(w.cfg.DenyAfterS)*time.Second)) {
 		return false
 	}
 
 	return w.cfg.denied(client, ip)
+}
+
+// deniedOnStream: the stream listener's own, additional refusals.
+func (w *World) deniedOnStream(ip net.IP) bool {
+	for _, d := range w.cfg.DenyStream {
+		if d >= 0 && d < len(PeerPool) && PeerPool[d].IP.Equal(ip) {
+			return true
+		}
+	}
+
+	return false
 }
